@@ -49,6 +49,17 @@ fn small_wires(max_len: usize, decos: &[Deco], with_garbage: bool) -> Vec<WireSp
                 garbage,
                 corrupt: None,
             });
+            // the announced length with leading zeros (1*DIGIT)
+            if decos.contains(&Deco::LeadingZeros) {
+                v.push(WireSpec {
+                    framing: Framing::Length,
+                    len,
+                    chunks: vec![],
+                    deco: Deco::LeadingZeros,
+                    garbage,
+                    corrupt: None,
+                });
+            }
         }
         v.push(WireSpec {
             framing: Framing::Close,
